@@ -5,6 +5,7 @@ import ast
 
 from ..absint import new_interp, Interp, HList, HDict, HInst, NONE, const, is_const, fmt, mk_not
 from ..astutil import unparse, dotted, walk_no_nested_defs
+from ..names import N
 from ..common import AnalysisError, Report
 from ..facts import facts
 from .. import nf
@@ -31,22 +32,22 @@ def rule_generator(rep: Report, rid="C11.gen") -> None:
     rep.used_function(q)
     tree, rv, st = I.run(q)
     selft = ("param", fi.params()[0])
-    cnt = ("attr", selft, "_id_counter")
+    cnt = ("attr", selft, N.ID_COUNTER)
     kw = dict(file=fi.file, line=fi.node.lineno, function=q)
     rep.eq(rid, "get_next_id returns the counter's value before the increment, as a string", ("call", "str", (cnt,), ()), rv, **kw)
-    new = st.ext.get((selft, "_id_counter")) if st else None
-    sets = [(n, c) for n, c in nf.iter_nodes(tree) if n[0] == "setattr" and n[2] == "_id_counter"]
+    new = st.ext.get((selft, N.ID_COUNTER)) if st else None
+    sets = [(n, c) for n, c in nf.iter_nodes(tree) if n[0] == "setattr" and n[2] == N.ID_COUNTER]
     rep.ob(rid, "get_next_id increments the counter by one on every call", new is not None and lin_eq(new, ("binop", "Add", cnt, const(1))) and len(sets) == 1
            and not nf.guards_in_ctx(sets[0][1]), **kw, expected="self._id_counter += 1", found=fmt(new, I) if new else None)
     I2 = new_interp()
     fi2 = I2.facts.func(f"{GQ}.__init__")
     tree2, rv2, st2 = I2.run(fi2.qualname)
-    rep.eq(rid, "a fresh generator starts at 0", const(0), st2.ext.get((("param", fi2.params()[0]), "_id_counter")), file=fi2.file, line=fi2.node.lineno, function=fi2.qualname)
+    rep.eq(rid, "a fresh generator starts at 0", const(0), st2.ext.get((("param", fi2.params()[0]), N.ID_COUNTER)), file=fi2.file, line=fi2.node.lineno, function=fi2.qualname)
     # writers of the counter, of id_generator attributes
     sites = 0
     for f in _pkg_functions():
         for n in ast.walk(f.node):
-            if isinstance(n, ast.Attribute) and n.attr == "_id_counter" and isinstance(n.ctx, (ast.Store, ast.Del)):
+            if isinstance(n, ast.Attribute) and n.attr == N.ID_COUNTER and isinstance(n.ctx, (ast.Store, ast.Del)):
                 sites += 1
                 rep.ob(rid, "the id counter is written only by the generator's constructor and get_next_id (never rewound or reset)",
                        f.qualname in (q, f"{GQ}.__init__"), file=f.file, line=n.lineno, function=f.qualname, expected=[f"{GQ}.__init__", q], found=f.qualname)
@@ -265,7 +266,7 @@ def rule_formatter(rep: Report, rid="C18.fmt") -> None:
     rep.used_function(fi.qualname)
     selft, tok = ("param", fi.params()[0]), ("param", fi.params()[1])
     muts = [(n, c) for n, c in nf.iter_nodes(tree) if n[0] == "mutate"]
-    ok = len(muts) == 1 and muts[0][0][1] == ("attr", selft, "_tokens") and muts[0][0][2] == "append" and muts[0][0][3] == (tok,) and not nf.guards_in_ctx(muts[0][1])
+    ok = len(muts) == 1 and muts[0][0][1] == ("attr", selft, N.FMT_TOKENS) and muts[0][0][2] == "append" and muts[0][0][3] == (tok,) and not nf.guards_in_ctx(muts[0][1])
     rep.ob(rid, "the token listing records every token it is given, in order, unconditionally", ok, file=fi.file, line=fi.node.lineno, function=fi.qualname,
            expected="self._tokens.append(token)", found=[(n[2], [(fmt(a, I), p) for a, p in nf.guards_in_ctx(c)]) for n, c in muts])
     for name in ("start_rule", "end_rule"):
@@ -283,7 +284,7 @@ def rule_formatter(rep: Report, rid="C18.fmt") -> None:
     ok = r3[0] == "call" and r3[1] == ".join" and is_const(r3[2][0], "\n") and r3[2][1][0] == "ref"
     if ok:
         segs = nf.list_content(I3, r3[2][1], t3)
-        ok = len(segs) == 1 and segs[0][0] == "loop" and I3.loops[segs[0][1]].get("iter") == ("attr", s, "_tokens") and not I3.loops[segs[0][1]].get("conds") \
+        ok = len(segs) == 1 and segs[0][0] == "loop" and I3.loops[segs[0][1]].get("iter") == ("attr", s, N.FMT_TOKENS) and not I3.loops[segs[0][1]].get("conds") \
             and len(segs[0][2]) == 1 and segs[0][2][0][0] == "e"
     rep.ob(rid, "the listing is one formatted line per recorded token, joined by line feeds", ok, file=fi3.file, line=fi3.node.lineno, function=fi3.qualname,
            expected="'\\n'.join(self._format_token(t) for t in self._tokens)", found=fmt(r3, I3))
